@@ -218,11 +218,10 @@ ExecAttribute(ss, S, ins, nss0, parH) ==
              S1    == IF clash THEN U.S ELSE S
              S1a   == NsTag(ss, S1, theNs, LookupNss(nss, p), FALSE)
          IN IF theNs = Null \/ theNs = "" THEN S                                      \* prefix not declared: warning, no attribute
-            ELSE LET found == PrefixForNs(S1a, theNs)
-                     (* a declaration is made only if NO prefix at all is bound to the namespace; the  *)
-                     (* attribute keeps its own prefix np whatever prefix was found                    *)
-                     S2 == IF found = Null THEN AddNsAttr(S1a, np, theNs)
-                           ELSE IF BoundUri(S1a, np) # theNs THEN Tag(S1a, "attrDeclarationSkipped") ELSE S1a
+            ELSE LET bound == NsForPrefix(S1a, np)
+                     (* a declaration is made unless the attribute's own prefix np is already bound to  *)
+                     (* the namespace                                                                  *)
+                     S2 == IF bound = Null \/ bound # theNs THEN AddNsAttr(S1a, np, theNs) ELSE S1a
                  IN AddResultAttr(S2, np, l, ins.v, FALSE)
      ELSE S
 
@@ -358,20 +357,19 @@ ExecElem(ss, src, S, ins, nss0, parH) ==
         p    == ins.p
         ns0  == IF ins.hasNs THEN ins.ns ELSE ""
         own  == IF p = "" THEN Null ELSE GetNamespace(H, p)
-        strip == p # "" /\ own = Null /\ ns0 = "" /\ ins.hasNs                  \* undeclared prefix, empty namespace: prefix erased from the name
+        strip == p # "" /\ own = Null /\ ns0 = "" /\ ins.hasNs                  \* undeclared prefix, empty namespace: generated without the prefix
         ns   == IF p # "" /\ own # Null /\ ns0 = "" /\ p # "xmlns" THEN own ELSE ns0
         np   == IF strip THEN "" ELSE p
         S0a  == IF p = "xmlns" THEN Tag(S, "xmlnsPrefixOnElement")
                 ELSE IF ins.hasNs /\ ins.ns = "" /\ p # "" /\ own # Null THEN Tag(S, "emptyNamespaceAttributeIgnored")
-                ELSE IF strip THEN Tag(S, "strippedPrefixUndeclared")
                 ELSE IF p # "" /\ ~ins.hasNs THEN NsTag(ss, S, own, LookupNss(nss, p), FALSE) ELSE S
         S1   == StartElement(S0a, np, ins.l)
-        S2   == IF ~ins.hasNs /\ p = "" THEN FixupDefaultNamespace(ss, S1, H, nss)
-                ELSE IF p = "" THEN
+        S2   == IF ~ins.hasNs /\ np = "" THEN FixupDefaultNamespace(ss, S1, H, nss)
+                ELSE IF np = "" THEN
                        IF ns # "" THEN LET d == NsForPrefix(S1, "") IN IF d = Null \/ d # ns THEN AddNsAttr(S1, "", ns) ELSE S1
                        ELSE LET pd == GetNamespace(parH, "")
                             IN IF (pd # Null /\ pd # "") \/ NsForPrefix(S1, "") # Null THEN AddNsAttr(S1, "", "") ELSE S1
-                ELSE LET t == NsForPrefix(S1, p) IN IF t = Null \/ t # ns THEN AddNsAttr(S1, p, ns) ELSE S1
+                ELSE LET t == NsForPrefix(S1, np) IN IF t = Null \/ t # ns THEN AddNsAttr(S1, np, ns) ELSE S1
         S3   == ExecSets(ss, S2, ins.uas, 1)
         r    == ExecBody(ss, src, S3, ins.body, 1, nss, H, <<>>, <<>>)
     IN [S |-> EndElement(r.S), node |-> [p |-> np, l |-> ins.l, a |-> r.attrs, c |-> r.kids]]
@@ -405,7 +403,6 @@ Run(ss, src) ==
 NotWF == {"serialised-result-not-wellformed"}
 KDFaults(t) ==
   CASE t = "attrListKeyedByQName"         -> {"duplicate-expanded-attribute-name", "attribute-value", "attribute-name"} \cup NotWF
-    [] t = "attrDeclarationSkipped"       -> {"unbound-prefix", "attribute-name", "attribute-value", "duplicate-expanded-attribute-name"} \cup NotWF
     [] t = "copiedAttributeNotFixedUp"    -> {"unbound-prefix", "attribute-name", "attribute-value", "duplicate-expanded-attribute-name"} \cup NotWF
     [] t = "aliasAppliedToXslAttribute"   -> {"attribute-name", "attribute-value", "duplicate-expanded-attribute-name"} \cup NotWF
     [] t = "staleExcludedPrefix"          -> {"element-name", "default-namespace-leak", "attribute-name", "attribute-value", "duplicate-expanded-attribute-name",
@@ -415,11 +412,10 @@ KDFaults(t) ==
                                               "attribute-name", "attribute-value", "duplicate-attribute-qname"} \cup NotWF
     [] t = "emptyNamespaceAttributeIgnored" -> {"element-name"}
     [] t = "literalAttributePrefixRebound" -> {"attribute-name", "attribute-value", "duplicate-expanded-attribute-name"} \cup NotWF
-    [] t = "strippedPrefixUndeclared"     -> {"prefix-undeclared", "default-namespace-leak", "element-name"} \cup NotWF
     [] t = "defaultDeclarationIsLiteralAttribute" -> {"excluded-namespace-declared", "alias-stylesheet-namespace-declared", "element-name"}
     [] OTHER -> {}
-KDTags == {"staleExcludedPrefix", "attrListKeyedByQName", "attrDeclarationSkipped", "copiedAttributeNotFixedUp", "aliasAppliedToXslAttribute",
-           "xmlPrefixWithOtherNamespace", "xmlnsPrefixOnElement", "emptyNamespaceAttributeIgnored", "strippedPrefixUndeclared",
+KDTags == {"staleExcludedPrefix", "attrListKeyedByQName", "copiedAttributeNotFixedUp", "aliasAppliedToXslAttribute",
+           "xmlPrefixWithOtherNamespace", "xmlnsPrefixOnElement", "emptyNamespaceAttributeIgnored",
            "defaultDeclarationIsLiteralAttribute", "literalAttributePrefixRebound"}
 Explained(tags) == UNION {KDFaults(t) : t \in tags}
 =============================================================================
